@@ -567,5 +567,145 @@ theorem prevOf_sim {c : Ctx} (hSub : Sub addrs g s) (hng : KeysNodup g.credits) 
         cases hn : c.node.fetchTx id with
         | none => rw [hn] at hf; cases hf
         | some t => right; exact ⟨rfl, rfl, rfl, t, rfl, rfl⟩
+section filter
+variable {c : Ctx}
+  (hSub : Sub addrs g s) (hng : KeysNodup g.credits) (hns : KeysNodup s.credits)
+  (hfind : ∀ id, existCreditFromTx g id = true → (c.node.fetchTx id).isSome = true)
+  (hown : ∀ (id : TxId) (pt : Tx) (idx : Nat) (o : Out) (w' : Wid) (ch : Bool), existCreditFromTx g id = true →
+    existCreditFromTx s id = false → c.node.fetchTx id = some pt → pt.outs[idx]? = some o → o.cls ≠ .raw →
+    AMap.get c.own o.addr = some (w', ch) → ready.contains w' = false)
+include hSub hng hns hfind hown
+
+theorem filterIn_sim {inBlk : List Tx} {tr tr' : TxRec} {cur : Nat} {i : Inp}
+    (hg : filterIn c g true inBlk ready tr cur i = .ok tr') : filterIn c s true inBlk ready tr cur i = .ok tr' := by
+  rcases prevOf_sim hSub hng hns hfind inBlk i.tx with e | ⟨hgt, hsf, hsk, pt, hpt, hfd⟩
+  · unfold filterIn at hg ⊢
+    rw [e]; exact hg
+  · unfold filterIn at hg ⊢
+    rw [hsk]
+    rw [hfd] at hg
+    dsimp only at hg ⊢
+    split at hg
+    · cases hg
+    rename_i o ho
+    split at hg
+    · exact hg
+    rename_i hraw
+    split at hg
+    · rename_i w ch hw
+      rw [hown i.tx pt i.idx o w ch hgt hsf hpt ho hraw hw] at hg
+      exact hg
+    · exact hg
+
+theorem filterTxRel_sim {tx : Tx} {inBlk : List Tx} {r : Option TxRec}
+    (hg : filterTxRel c g tx true inBlk ready = .ok r) : filterTxRel c s tx true inBlk ready = .ok r := by
+  rw [filterTxRel_eq] at hg ⊢
+  obtain ⟨tr, h1, h2⟩ := M_bind_ok hg
+  have e : (if tx.cb = true then (pure { tx := tx } : M TxRec)
+      else foldIdxM (filterIn c s true inBlk ready) tx.ins 0 { tx := tx }) = .ok tr := by
+    split at h1
+    · rename_i hcb; rw [if_pos hcb]; exact h1
+    · rename_i hcb; rw [if_neg hcb]
+      exact foldIdxM_congr_ok _ _ _ (fun _ _ _ _ _ hf => filterIn_sim hSub hng hns hfind hown hf) h1
+  rw [e]
+  exact h2
+
+theorem filterTxs_sim {bid : BlkId} (txs : List Tx) : ∀ (seen : List Tx) (ti : Nat) (acc recs : List TxRec),
+    filterTxs c g ready bid txs seen ti acc = .ok recs → filterTxs c s ready bid txs seen ti acc = .ok recs := by
+  induction txs with
+  | nil => intro seen ti acc recs h; exact h
+  | cons tx rest ih =>
+    intro seen ti acc recs h
+    unfold filterTxs at h ⊢
+    obtain ⟨r, h1, h2⟩ := M_bind_ok h
+    rw [filterTxRel_sim hSub hng hns hfind hown h1]
+    cases r with
+    | none => exact ih _ _ _ _ h2
+    | some tr => exact ih _ _ _ _ h2
+
+end filter
+
+-- what the filter phase guarantees of its records (any store)
+
+theorem filterIn_recOK {c : Ctx} {st : Store} {mined : Bool} {inBlk : List Tx} {tr tr' : TxRec} {cur : Nat} {i : Inp}
+    (h : RecOK addrs ready tr) (hf : filterIn c st mined inBlk ready tr cur i = .ok tr') : RecOK addrs ready tr' := by
+  unfold filterIn at hf
+  split at hf
+  · cases hf; exact h
+  · cases hf
+  · split at hf
+    · cases hf
+    split at hf
+    · cases hf; exact h
+    split at hf
+    · split at hf
+      · rename_i hw
+        cases hf
+        refine ⟨?_, h.2⟩
+        intro rel hrel
+        rcases List.mem_append.1 hrel with hm | hm
+        · exact h.1 rel hm
+        · rw [List.mem_singleton] at hm; subst hm; exact hw
+      · cases hf; exact h
+    · cases hf; exact h
+
+theorem filterOut_recOK {c : Ctx}
+    (hrel : ∀ a w' ch, AMap.get c.own a = some (w', ch) → ready.contains w' = true → addrs.contains a = false)
+    {tr : TxRec} (cur : Nat) (o : Out) (h : RecOK addrs ready tr) : RecOK addrs ready (filterOut c ready tr cur o) := by
+  unfold filterOut
+  split
+  · exact h
+  split
+  · rename_i w ch ho
+    split
+    · rename_i hw
+      refine ⟨h.1, ?_⟩
+      intro rel hm
+      rcases List.mem_append.1 hm with hm | hm
+      · exact h.2 rel hm
+      · rw [List.mem_singleton] at hm; subst hm; exact hrel o.addr w ch ho hw
+    · exact h
+  · exact h
+
+theorem filterTxRel_recOK {c : Ctx} {st : Store}
+    (hrel : ∀ a w' ch, AMap.get c.own a = some (w', ch) → ready.contains w' = true → addrs.contains a = false)
+    {tx : Tx} {mined : Bool} {inBlk : List Tx} {tr : TxRec}
+    (h : filterTxRel c st tx mined inBlk ready = .ok (some tr)) : RecOK addrs ready tr := by
+  rw [filterTxRel_eq] at h
+  obtain ⟨tr0, h1, h2⟩ := M_bind_ok h
+  have h0 : RecOK addrs ready ({ tx := tx } : TxRec) :=
+    ⟨fun _ hm => (by cases hm), fun _ hm => (by cases hm)⟩
+  have hA : RecOK addrs ready tr0 := by
+    split at h1
+    · cases h1; exact h0
+    · exact foldIdxM_preserves (RecOK addrs ready) _ _ (fun _ _ _ _ _ hq hf => filterIn_recOK hq hf) h0 h1
+  have hB : RecOK addrs ready (foldIdx (filterOut c ready) tx.outs 0 tr0) :=
+    foldIdx_preserves (RecOK addrs ready) _ _ (fun _ i o _ hq => filterOut_recOK hrel i o hq) hA
+  split at h2
+  · cases h2
+  split at h2
+  · cases h2
+  · cases h2; exact hB
+
+theorem filterTxs_recOK {c : Ctx} {st : Store}
+    (hrel : ∀ a w' ch, AMap.get c.own a = some (w', ch) → ready.contains w' = true → addrs.contains a = false)
+    {bid : BlkId} (txs : List Tx) : ∀ (seen : List Tx) (ti : Nat) (acc recs : List TxRec),
+    (∀ tr ∈ acc, RecOK addrs ready tr) → filterTxs c st ready bid txs seen ti acc = .ok recs →
+    ∀ tr ∈ recs, RecOK addrs ready tr := by
+  induction txs with
+  | nil => intro seen ti acc recs ha h; cases h; exact ha
+  | cons tx rest ih =>
+    intro seen ti acc recs ha h
+    unfold filterTxs at h
+    obtain ⟨r, h1, h2⟩ := M_bind_ok h
+    cases r with
+    | none => exact ih _ _ _ _ ha h2
+    | some tr =>
+      refine ih _ _ _ _ ?_ h2
+      intro tr' hm
+      rcases List.mem_append.1 hm with hm | hm
+      · exact ha tr' hm
+      · rw [List.mem_singleton] at hm; subst hm
+        exact (filterTxRel_recOK hrel h1 : RecOK addrs ready tr)
 
 end MW.Lemmas.RemoveSim
